@@ -97,7 +97,19 @@ func (r *c03Run) extKill(after time.Duration) {
 	syscall.Kill(r.l.pid(), syscall.SIGKILL)
 }
 
+// c03AtSend: broker ids whose host-side control-stream message, once the host's stream goroutine has
+// taken it and is about to put it on the wire (hook point grpcbroker.stream.sending), triggers the
+// registered action (the plugin's death) before the goroutine carries on.
+var c03AtSend sync.Map // uint32 -> func()
+
 func TestC03(t *testing.T) {
+	plugin.VerifSetHook(func(name string, id uint32) {
+		if name == "grpcbroker.stream.sending" {
+			if f, ok := c03AtSend.LoadAndDelete(id); ok {
+				f.(func())()
+			}
+		}
+	})
 	forCases(t, 16, func(c spec.Case, e Em) {
 		var p spec.C03Case
 		param(c, &p)
@@ -280,6 +292,39 @@ func TestC03(t *testing.T) {
 					})
 				}
 				go r.extKill(time.Duration(p.Arg) * time.Millisecond)
+			}
+		case "host-send-inflight":
+			// the plugin dies while a host-side broker call has its control-stream message between the stream
+			// goroutine's pick-up and the wire: an Accept's listener address (no multiplexing) or a Dial's
+			// knock (multiplexing)
+			if bring() && r.hgrpc != nil {
+				id := uint32(600000 + c.ID)
+				c03AtSend.Store(id, func() {
+					syscall.Kill(r.l.pid(), syscall.SIGKILL)
+					t0 := time.Now()
+					for !r.l.Client.Exited() && time.Since(t0) < 10*time.Second {
+						time.Sleep(5 * time.Millisecond)
+					}
+					time.Sleep(time.Duration(p.Arg) * time.Millisecond)
+				})
+				defer c03AtSend.Delete(id)
+				if mux {
+					r.inflight("BrokerDial", func() error {
+						d := vp.GRPCDialPing(r.hgrpc, id, c03H, true)
+						if d.DialErr != "" || d.PingErr != "" {
+							return fmt.Errorf("%s %s", d.DialErr, d.PingErr)
+						}
+						return nil
+					})
+				} else {
+					r.inflight("BrokerAccept", func() error {
+						ln, err := r.hgrpc.Accept(id)
+						if err == nil {
+							ln.Close()
+						}
+						return nil // GRPCBroker.Accept only has to return
+					})
+				}
 			}
 		case "random-instant":
 			if bring() {
